@@ -228,7 +228,11 @@ func crashBlame(stderr string) (bool, string) {
 		if strings.HasPrefix(l, "github.com/paulsonkoly/chess-3/") {
 			return true, first + " in " + strings.TrimSpace(l)
 		}
-		return false, first + " in " + strings.TrimSpace(l)
+		if strings.HasPrefix(l, "verif/sim") {
+			return false, first + " in " + strings.TrimSpace(l)
+		}
+		// a frame of the standard library (sync.WaitGroup.Go's re-panic wrapper,
+		// fmt, bufio ...): whoever called it decides
 	}
 	return false, first
 }
@@ -387,8 +391,9 @@ func (d *driver) check(prop, tier string) int {
 	if budget < 5 {
 		budget = 5
 	}
-	outs := make([]*workerOut, d.workers)
+	slots := make([][]*workerOut, d.workers)
 	var wg sync.WaitGroup
+	fanStart := time.Now()
 	for i := 0; i < d.workers; i++ {
 		wg.Add(1)
 		go func(i int) {
@@ -398,10 +403,39 @@ func (d *driver) check(prop, tier string) int {
 			if sb := os.Getenv("VERIF_SPSA_BIN"); sb != "" && ((tier == "thorough" && i%2 == 1) || (tier == "quick" && i%8 == 7)) {
 				bin = sb
 			}
-			outs[i] = d.spawnBin(bin, Job{Property: prop, Tier: tier, Master: master, Worker: i, Workers: d.workers, BudgetS: budget, MaxRuns: envInt("VERIF_MAX_RUNS", 0)}, gmp)
+			job := Job{Property: prop, Tier: tier, Master: master, Worker: i, Workers: d.workers, BudgetS: budget, MaxRuns: envInt("VERIF_MAX_RUNS", 0)}
+			for restarts := 0; ; restarts++ {
+				wo := d.spawnBin(bin, job, gmp)
+				slots[i] = append(slots[i], wo)
+				left := budget - time.Since(fanStart).Seconds()
+				if left < 2 || restarts > 2000 {
+					return
+				}
+				switch {
+				case wo.summary != nil && wo.summary.Restart:
+					// a run left a deadlocked driver behind: continue in a fresh process
+					job.SkipK = wo.summary.NextK
+				case wo.summary == nil:
+					// the process died; if the engine is to blame the run is a finding
+					// and the exploration goes on behind it
+					blame, _ := crashBlame(wo.stderr)
+					rc := caseFromSidecar(wo.cur)
+					if !blame || rc == nil {
+						return
+					}
+					job.SkipK = int((rc.Run-job.FirstRun-uint64(i))/uint64(d.workers)) + 1
+				default:
+					return
+				}
+				job.BudgetS = left
+			}
 		}(i)
 	}
 	wg.Wait()
+	var outs []*workerOut
+	for _, sl := range slots {
+		outs = append(outs, sl...)
+	}
 
 	// 4. collect
 	agg := &WorkerSummary{Stats: map[string]int64{}, LegRuns: map[string]int{}}
@@ -424,6 +458,8 @@ func (d *driver) check(prop, tier string) int {
 			}
 			v := Violation{Property: propertyOfCrash(prop), Kind: kind, Detail: "driver process died: " + what}
 			found = append(found, finding{run: &RunResult{Run: rc.Run, Seed: rc.Seed, Leg: rc.Leg, Case: rc, Violations: []Violation{v}}, v: v, from: "crash"})
+			agg.Runs++
+			agg.Stats["driver_process_crashes"]++
 			for _, rr := range wo.runs {
 				for _, v := range rr.Violations {
 					if v.Property == prop {
